@@ -122,6 +122,8 @@ def check(pid, tier='quick', seed=0):
     known_hits = []
     functions = []
     trusted = set()
+    unverified = set()
+    solver_us_box = [0]
     counters = {}
     solver_us = 0
     twins = 0
@@ -144,6 +146,25 @@ def check(pid, tier='quick', seed=0):
         trusted.update(scan_trusted(unit_text))
         for k, v in meta['counters'].items():
             counters[k] = counters.get(k, 0) + v
+        for st in meta.get('stubs', []):
+            unverified.add(f"{st['mod']}::{st['name']} ({st['file']}) – contract assumed, pinned to body {st['pin']}")
+        # --- labelled lemmas (proof fns in spec / raw text): an obligation each
+        for ml in re.finditer(r'//\s*\[(C\d\d\.[A-Za-z0-9_.\-]+)\][^\n]*\n(?:\s*(?:///[^\n]*|#\[[^\n]*\])\n)*\s*(?:pub\s+)?(?:broadcast\s+)?proof fn\s+(\w+)', unit_text):
+            lab, fname = ml.group(1), ml.group(2)
+            if label_prop(lab) != pid:
+                continue
+            hits = [v for k, v in cm['times'].items() if k.split('::')[-1] == fname]
+            ok = len(hits) == 1 and hits[0].get('success') is True
+            if len(hits) != 1:
+                inconclusive.append(f'{wname}: lemma {fname} for [{lab}] not found in the Verus breakdown')
+                continue
+            solver_us_box[0] += hits[0].get('time_micros') or 0
+            ob = {'id': f'{wname}:lemma {fname}:{lab}', 'label': lab, 'function': f'lemma {fname}', 'discharged': ok}
+            obligations.append(ob)
+            functions.append({'function': f'lemma {fname}', 'world': wname, 'file': 'verif/contracts (spec)', 'smt_time_us': hits[0].get('time_micros'), 'rlimit': hits[0].get('rlimit')})
+            if not ok:
+                violations.append({'obligation': ob['id'], 'label': lab, 'function': f'lemma {fname}', 'world': wname, 'file': 'spec', 'src_span': [0, 0],
+                                   'verus': [f['rendered'] for f in cm['failures'] if fname in f.get('rendered', '')][:3]})
         # --- vacuity twins: every reach twin must fail
         reach_failed = set()
         for f in cr['failures']:
@@ -249,7 +270,7 @@ def check(pid, tier='quick', seed=0):
             known_hits.append(kf)
         else:
             reported.append(v)
-    ev_dir = os.path.join(VERIF, 'evidence')
+    ev_dir = os.environ.get('VERIF_EVIDENCE', os.path.join(VERIF, 'evidence'))
     os.makedirs(ev_dir, exist_ok=True)
     rc = 0
     lines = []
@@ -282,13 +303,14 @@ def check(pid, tier='quick', seed=0):
             'functions_under_contract': functions,
             'vacuity_twins_expected_failed': twins,
             'rewrite_counters': counters,
-            'solver_time_us': solver_us,
+            'solver_time_us': solver_us + solver_us_box[0],
+            'unverified_repo_functions': sorted(unverified),
             'back_end': 'Verus 0.2026.09.13 / Z3',
             'worlds': [t[0] + ('+' + '+'.join(t[1]) if t[1] else '') for t in targets],
             'known_findings_hit': sorted(seen),
             'inconclusive': inconclusive,
         },
-        'assumptions': ASSUMPTIONS,
+        'assumptions': ASSUMPTIONS + ['repo function NOT verified (contract assumed): ' + u for u in sorted(unverified)],
         'wall_s': round(wall, 2),
         'violations': len(reported) if rc == 1 else 0,
     }
